@@ -105,6 +105,28 @@ def lean_failed_modules(ctx):
     return re.findall(r"^- (\S+)$", ctx.lean_log, re.M) if not ctx.lean_ok else []
 
 
+def modules_reaching(failed):
+    """modules of the Lean project that are in `failed` or import one of them, transitively (from the import lines)"""
+    imports = {}
+    for root, _, files in os.walk(LEAN):
+        if ".lake" in root:
+            continue
+        for fn in files:
+            if fn.endswith(".lean"):
+                p = os.path.join(root, fn)
+                mod = os.path.relpath(p, LEAN)[:-5].replace(os.sep, ".")
+                imports[mod] = re.findall(r"^import\s+(\S+)", open(p, errors="replace").read(), re.M)
+    reach = set(failed)
+    changed = True
+    while changed:
+        changed = False
+        for m, deps in imports.items():
+            if m not in reach and any(d in reach for d in deps):
+                reach.add(m)
+                changed = True
+    return reach
+
+
 # ----------------------------------------------------------------------------- proof audit
 
 def audit(ctx, module, theorems):
